@@ -73,7 +73,7 @@ META = {
         "+1 at the push and -1 for every popped element. "
         "(R6) No exception escapes tokenize_html, any overridden callback or Element.insert/__setitem__ (escape analysis; the "
         "HTMLParser.feed entry is discharged by the parse_marked_section override catching AssertionError; a call of a list method on the children list that shares its name with the element method is not a recursion). "
-        "(R7) __iter__/walk are pre-order in list order, each element once; find() enumerates candidates in that order and its "
+        "(R7) __iter__ yields the children list in order; walk() is run on sample trees (recursive or explicit-stack spellings alike) and must yield the pre-order of the descendants, each once, self first when requested; Attribute.classes splits the class attribute at any white space; find() enumerates candidates in that order and its "
         "candidate test - helper methods and lambdas inlined - agrees on a decision table (identifier is class/name, matches or "
         "not, node class Tag/VoidTag/XTag, two abstract requested classes as token / substring-only / absent, 0-2 requested "
         "attributes each present-and-equal / present-but-different / absent-while-''-requested / absent) with: name and (classes "
@@ -1683,6 +1683,18 @@ class _StrEval:
         if isinstance(e, ast.Call):
             if dotted(e.func) == "len" and len(e.args) == 1:
                 return len(self.ev(e.args[0]))
+            if isinstance(e.func, ast.Attribute) and e.func.attr in ("fullmatch", "match") and isinstance(e.func.value, ast.Name) and e.func.value.id in self.fi.module.const_nodes and len(e.args) == 1:
+                # a module-level compiled pattern: matched here on the regex *tree*, one single-character item per position
+                items = _regex_items(self.fi.module, e.func.value.id)
+                text = self.ev(e.args[0])
+                if isinstance(text, str):
+                    if len(text) < len(items) or (e.func.attr == "fullmatch" and len(text) != len(items)):
+                        return None
+                    for it, ch in zip(items, text):
+                        ok = (chr(it[1]) == ch) if it[0] is sre_c.LITERAL else _class_accepts(it, ch)
+                        if not ok:
+                            return None
+                    return True
             if isinstance(e.func, ast.Attribute) and e.func.attr in ("isascii", "isalpha", "isalnum", "islower", "isupper", "isdigit", "isspace", "startswith", "endswith", "lower", "upper", "strip"):
                 v = self.ev(e.func.value)
                 if isinstance(v, str):
@@ -1719,23 +1731,35 @@ def _judge_trailing_ampersand(P: Ctx, rep: Report, hp) -> None:
         raise Unsupported("stdlib regex `incomplete` is not '&' + one character class")
     cfg = get_cfg(feed)
     close_stmt = cfg.stmt_of(closes[0])
+    # the guard sits in feed() itself or in a private helper that feed() calls (as a statement) on the way to close()
+    homes: list[FunctionInfo] = [feed]
+    for st in walk_local(feed.node):
+        if isinstance(st, ast.Expr) and isinstance(st.value, ast.Call) and isinstance(st.value.func, ast.Attribute) and _is_name(st.value.func.value, "self") and not st.value.args and cfg.dominates(st, close_stmt):
+            h = P.parser.methods.get(st.value.func.attr)
+            if h is not None and h.fq != feed.fq and h not in homes:
+                homes.append(h)
     cands = []
-    for n in walk_local(feed.node):
-        if isinstance(n, ast.If) and not n.orelse and cfg.dominates(n, close_stmt):
-            hd = [c for st in n.body for c in ast.walk(st) if isinstance(c, ast.Call) and dotted(c.func) == "self.handle_data" and len(c.args) == 1]
-            if hd and any(isinstance(x, ast.Constant) and x.value == "&" for x in ast.walk(n.test)):
-                cands.append((n, hd[0]))
+    for home in homes:
+        hcfg = get_cfg(home)
+        for n in walk_local(home.node):
+            if isinstance(n, ast.If) and not n.orelse and (hcfg.dominates(n, close_stmt) if home is feed else hcfg.loops.get(n) is None):
+                hd = [c for st in n.body for c in ast.walk(st) if isinstance(c, ast.Call) and dotted(c.func) == "self.handle_data" and len(c.args) == 1]
+                sets_ = [st for st in n.body if isinstance(st, ast.Assign) and len(st.targets) == 1 and _is_self_attr(st.targets[0], "rawdata")]
+                amp_lit = any(isinstance(x, ast.Constant) and x.value == "&" for x in ast.walk(n.test))
+                if hd and (amp_lit or sets_) and not any(isinstance(x, ast.Constant) and x.value == "&#" for x in ast.walk(n.test)):
+                    cands.append((n, hd[0], home))
     if not cands:
         rep.violation("C16.R3", key, feed.site(), f"feed() ends with close(), and html.parser's goahead(end=True) ({hp.rel}:{quirk.lineno}) steps over an '&' that is followed by one last letter without calling a handler: tokenize_html('AT&T') renders 'ATT'")
         return
     if len(cands) != 1:
         raise Unsupported(f"{feed.fq}: several candidate guards for the trailing '&'")
-    guard, hd = cands[0]
-    names = {x.id for x in ast.walk(guard.test) if isinstance(x, ast.Name)} - {"self", "len"}
-    if len(names) != 1:
-        raise Unsupported(f"{feed.fq}: the guard `{short(guard.test, 50)}` is not over one local")
-    (var,) = names
-    last = [b for b in _bindings(feed, var) if isinstance(b, ast.Assign) and _is_self_attr(b.value, "rawdata")]
+    guard, hd, home = cands[0]
+    names = {x.id for x in ast.walk(guard.test) if isinstance(x, ast.Name)} - {"self", "len"} - set(home.module.const_nodes)
+    if len(names) > 1:
+        raise Unsupported(f"{home.fq}: the guard `{short(guard.test, 50)}` is not over one local")
+    # a guard that mentions no local (a constant, self.rawdata itself) is evaluated as it is; the reported name then stands for the rest
+    var = next(iter(names), hd.args[0].id if isinstance(hd.args[0], ast.Name) else "<none>")
+    last = [b for b in _bindings(home, var) if isinstance(b, ast.Assign) and _is_self_attr(b.value, "rawdata")] if names else [None]
     if not last:
         raise Unsupported(f"{feed.fq}: `{var}` is not bound to self.rawdata")
     problems = []
@@ -1744,7 +1768,7 @@ def _judge_trailing_ampersand(P: Ctx, rep: Report, hp) -> None:
         for sm in samples:
             want = cd is None and len(sm) == 2 and sm[0] == "&" and sm[1] != "#" and _class_accepts(inc[1], sm[1])
             try:
-                got = bool(_StrEval(feed, var, sm, cd).ev(guard.test))
+                got = bool(_StrEval(home, var, sm, cd).ev(guard.test))
             except _Stops as e:
                 problems.append(f"the guard raises {e.why} for a buffered rest {sm!r}")
                 break
@@ -3579,6 +3603,284 @@ def _order_problem(P: Ctx, e: ast.expr, fi: FunctionInfo, seen: set) -> str | No
     raise Unsupported(f"{fi.fq}: iteration source {short(e, 50)}")
 
 
+class _TNode:
+    def __init__(self, label: str, children=()):
+        self.label, self.children = label, list(children)
+
+    def preorder(self) -> list:
+        out = []
+        for c in self.children:
+            out.append(c)
+            out += c.preorder()
+        return out
+
+
+class _WalkRun:
+    """Runs a traversal generator of the element class on an abstract tree; collects what it yields.
+    Values: tree nodes, lists, iterators over lists, ints, bools, None.  Recursive calls of the same method run recursively."""
+
+    def __init__(self, P: Ctx, fi: FunctionInfo, depth: int = 0):
+        self.P, self.fi, self.depth = P, fi, depth
+        self.out: list = []
+        self.steps = 0
+
+    def call_self(self, node: _TNode, args: dict) -> list:
+        if self.depth > 12:
+            raise Unsupported(f"{self.fi.fq}: recursion deeper than the sample trees")
+        sub = _WalkRun(self.P, self.fi, self.depth + 1)
+        return sub.run(node, args)
+
+    def run(self, node: _TNode, args: dict) -> list:
+        env = {"self": node}
+        for p_ in [x for x in self.fi.params if x != "self"]:
+            if p_ in args:
+                env[p_] = args[p_]
+            else:
+                d = _param_default(self.fi, p_)
+                if not isinstance(d, ast.Constant):
+                    raise Unsupported(f"{self.fi.fq}: parameter {p_}")
+                env[p_] = d.value
+        self.env = env
+        self.block(self.fi.node.body)
+        return self.out
+
+    def ev(self, e: ast.expr):
+        if isinstance(e, ast.Constant):
+            return e.value
+        if isinstance(e, ast.Name):
+            if e.id in self.env:
+                return self.env[e.id]
+            raise Unsupported(f"{self.fi.fq}: name {e.id}")
+        if isinstance(e, (ast.List, ast.Tuple)):
+            return [self.ev(x) for x in e.elts]
+        if isinstance(e, ast.UnaryOp) and isinstance(e.op, ast.Not):
+            return not self.ev(e.operand)
+        if isinstance(e, ast.UnaryOp) and isinstance(e.op, ast.USub):
+            return -self.ev(e.operand)
+        if isinstance(e, ast.BoolOp):
+            v = None
+            for x in e.values:
+                v = self.ev(x)
+                if bool(v) != isinstance(e.op, ast.And):
+                    return v
+            return v
+        if isinstance(e, ast.Attribute):
+            b = self.ev(e.value)
+            if isinstance(b, _TNode) and e.attr in ("_children", "children"):
+                return list(b.children) if e.attr == "children" else b.children
+            raise Unsupported(f"{self.fi.fq}: attribute `{short(e, 30)}`")
+        if isinstance(e, ast.Subscript):
+            b, k = self.ev(e.value), (self.ev(e.slice) if not isinstance(e.slice, ast.Slice) else None)
+            if isinstance(b, _TNode):
+                b = b.children
+            if isinstance(b, list) and isinstance(k, int):
+                if -len(b) <= k < len(b):
+                    return b[k]
+                raise _Stops("IndexError")
+            if isinstance(b, list) and isinstance(e.slice, ast.Slice):
+                lo = self.ev(e.slice.lower) if e.slice.lower else None
+                hi = self.ev(e.slice.upper) if e.slice.upper else None
+                st = self.ev(e.slice.step) if e.slice.step else None
+                return b[lo:hi:st]
+        if isinstance(e, ast.Compare) and len(e.ops) == 1:
+            l, r, op = self.ev(e.left), self.ev(e.comparators[0]), e.ops[0]
+            if isinstance(op, (ast.Is, ast.IsNot)):
+                return (l is r) == isinstance(op, ast.Is)
+            if isinstance(l, int) and isinstance(r, int):
+                return {ast.Eq: l == r, ast.NotEq: l != r, ast.Lt: l < r, ast.LtE: l <= r, ast.Gt: l > r, ast.GtE: l >= r}.get(type(op))
+        if isinstance(e, ast.Call):
+            d = dotted(e.func)
+            args = [self.ev(a) for a in e.args]
+            kw = {k.arg: self.ev(k.value) for k in e.keywords}
+            def seq(v):
+                return v.children if isinstance(v, _TNode) else v
+            if d == "iter" and len(args) == 1 and isinstance(seq(args[0]), list):
+                return iter(list(seq(args[0])))
+            if d in ("list", "tuple") and len(args) == 1:
+                return list(seq(args[0]))
+            if d == "reversed" and len(args) == 1 and isinstance(seq(args[0]), list):
+                return list(reversed(seq(args[0])))
+            if d == "len" and len(args) == 1 and isinstance(seq(args[0]), list):
+                return len(seq(args[0]))
+            if d in ("deque", "collections.deque") and len(args) <= 1:
+                return list(seq(args[0])) if args else []
+            if d == "next" and args and hasattr(args[0], "__next__"):
+                try:
+                    return next(args[0])
+                except StopIteration:
+                    if len(args) > 1:
+                        return args[1]
+                    raise _Stops("StopIteration")
+            if isinstance(e.func, ast.Attribute):
+                recv = self.ev(e.func.value)
+                m = e.func.attr
+                if isinstance(recv, _TNode) and m == self.fi.name:
+                    params = [x for x in self.fi.params if x != "self"]
+                    a2 = {params[i]: v for i, v in enumerate(args) if i < len(params)}
+                    a2.update(kw)
+                    return self.call_self(recv, a2)
+                if isinstance(recv, list):
+                    if m == "append" and len(args) == 1:
+                        return recv.append(args[0])
+                    if m == "extend" and len(args) == 1:
+                        return recv.extend(list(seq(args[0])) if not hasattr(args[0], "__next__") else list(args[0]))
+                    if m == "pop" and len(args) <= 1:
+                        if not recv:
+                            raise _Stops("IndexError: pop from empty list")
+                        return recv.pop(*args)
+                    if m == "popleft" and not args:
+                        if not recv:
+                            raise _Stops("IndexError")
+                        return recv.pop(0)
+                    if m == "appendleft" and len(args) == 1:
+                        return recv.insert(0, args[0])
+                    if m == "insert" and len(args) == 2:
+                        return recv.insert(args[0], args[1])
+        raise Unsupported(f"{self.fi.fq}: expression `{short(e, 50)}`")
+
+    def items(self, v):
+        if isinstance(v, _TNode):
+            return iter(list(v.children))
+        if isinstance(v, list):
+            return iter(list(v))
+        if hasattr(v, "__next__"):
+            return v
+        raise Unsupported(f"{self.fi.fq}: iteration over {type(v).__name__}")
+
+    def block(self, stmts):
+        for st in stmts:
+            sig = self.stmt(st)
+            if sig:
+                return sig
+        return None
+
+    def stmt(self, st):
+        self.steps += 1
+        if self.steps > 5000:
+            raise Unsupported(f"{self.fi.fq}: no termination within the step bound")
+        if isinstance(st, ast.Pass) or (isinstance(st, ast.Expr) and isinstance(st.value, ast.Constant)):
+            return None
+        if isinstance(st, ast.Expr) and isinstance(st.value, ast.Yield):
+            self.out.append(self.ev(st.value.value))
+            return None
+        if isinstance(st, ast.Expr) and isinstance(st.value, ast.YieldFrom):
+            self.out.extend(list(self.items(self.ev(st.value.value))))
+            return None
+        if isinstance(st, ast.Expr):
+            self.ev(st.value)
+            return None
+        if isinstance(st, ast.Assign) and len(st.targets) == 1 and isinstance(st.targets[0], ast.Name):
+            self.env[st.targets[0].id] = self.ev(st.value)
+            return None
+        if isinstance(st, ast.AnnAssign) and isinstance(st.target, ast.Name) and st.value is not None:
+            self.env[st.target.id] = self.ev(st.value)
+            return None
+        if isinstance(st, ast.If):
+            return self.block(st.body if self.ev(st.test) else st.orelse)
+        if isinstance(st, ast.For) and isinstance(st.target, ast.Name):
+            broke = False
+            for item in self.items(self.ev(st.iter)):
+                self.env[st.target.id] = item
+                sig = self.block(st.body)
+                if sig == "break":
+                    broke = True
+                    break
+                if sig == "return":
+                    return sig
+            return None if broke else self.block(st.orelse)
+        if isinstance(st, ast.While):
+            broke = False
+            while self.ev(st.test):
+                self.steps += 1
+                if self.steps > 5000:
+                    raise Unsupported(f"{self.fi.fq}: no termination within the step bound")
+                sig = self.block(st.body)
+                if sig == "break":
+                    broke = True
+                    break
+                if sig == "return":
+                    return sig
+            return None if broke else self.block(st.orelse)
+        if isinstance(st, ast.Break):
+            return "break"
+        if isinstance(st, ast.Continue):
+            return "continue"
+        if isinstance(st, ast.Return):
+            return "return"
+        raise Unsupported(f"{self.fi.fq}: statement `{short(st, 50)}`")
+
+
+def _judge_walk(P: Ctx, rep: Report, walk: FunctionInfo) -> None:
+    def tree():
+        c = _TNode("c"); b = _TNode("b", [c]); d = _TNode("d"); a = _TNode("a", [b, d]); e = _TNode("e"); f = _TNode("f", [_TNode("g"), _TNode("h")])
+        return _TNode("root", [a, e, f])
+
+    site = walk.site()
+    results = {}
+    for inc in (False, True):
+        root = tree()
+        want = ([root] if inc else []) + root.preorder()
+        try:
+            got = _WalkRun(P, walk).run(root, {"include_self": inc})
+            why = None
+        except _Stops as ex:
+            got, why = None, ex.why
+        results[inc] = (got, want, why, root)
+    got, want, why, root = results[False]
+    labels = lambda seq: " ".join(n.label if isinstance(n, _TNode) else "?" for n in seq)  # noqa: E731
+    key_order = f"{walk.fq}|children in list order"
+    key_pre = f"{walk.fq}|pre-order, each element once"
+    key_self = f"{walk.fq}|self first when requested"
+    if why is not None:
+        rep.violation("C16.R7", key_pre, site, f"walk() raises {why} on a small tree (root > a(b(c), d), e, f(g, h))")
+        return
+    if got == want:
+        rep.ok("C16.R7", key_order, site)
+        rep.ok("C16.R7", key_pre, site, "on the sample tree walk() yields " + labels(got))
+    else:
+        same_set = sorted(map(id, got)) == sorted(map(id, want))
+        if same_set:
+            rep.ok("C16.R7", key_order, site) if [n for n in got if n in root.children] == root.children else rep.violation("C16.R7", key_order, site, f"walk() visits the children out of list order: {labels(got)} instead of {labels(want)}")
+            rep.violation("C16.R7", key_pre, site, f"walk() yields {labels(got)} on the sample tree; document (pre-)order is {labels(want)}: find() no longer returns matches in document order")
+        else:
+            rep.ok("C16.R7", key_order, site)
+            n_dup = len(got) - len({id(n) for n in got})
+            rep.violation("C16.R7", key_pre, site, f"walk() yields {labels(got)} on the sample tree instead of {labels(want)}" + (f": {n_dup} element(s) twice" if n_dup else ": elements are missing") + " - elements are not reachable exactly once")
+    got, want, why, _ = results[True]
+    if why is None and got == want:
+        rep.ok("C16.R7", key_self, site)
+    elif results[False][0] == results[False][1]:
+        rep.violation("C16.R7", key_self, site, f"with include_self=True walk() yields {labels(got) if got is not None else why} instead of {labels(want)}: the element itself must come first, once")
+    else:
+        rep.ok("C16.R7", key_self, site, "(judged with the pre-order key)")
+
+
+def _judge_class_tokens(P: Ctx, rep: Report) -> None:
+    """The class filter of find() works on Attribute.classes: the class attribute split at any run of white space
+    (HTML: space, tab, LF, FF, CR), which is what str.split() without arguments does."""
+    fi = P.attribute.methods.get("classes")
+    if fi is None:
+        raise AnchorMissing("Attribute.classes not found")
+    key = f"{fi.fq}|class names are separated by any white space"
+    rets = [n for n in walk_local(fi.node) if isinstance(n, ast.Return) and n.value is not None]
+    if len(rets) != 1:
+        raise Unsupported(f"{fi.fq}: {len(rets)} return statements")
+    site = fi.module.site(rets[0])
+    splits = [c for c in ast.walk(_inline_locals(rets[0].value, fi)) if isinstance(c, ast.Call) and isinstance(c.func, ast.Attribute) and c.func.attr in ("split", "rsplit", "splitlines", "partition")]
+    if len(splits) != 1:
+        raise Unsupported(f"{fi.fq}: `{short(rets[0].value, 50)}` is not one split of the class attribute")
+    c = splits[0]
+    if not any(isinstance(x, ast.Constant) and x.value == "class" for x in ast.walk(c.func.value)):
+        raise Unsupported(f"{fi.fq}: `{short(c, 40)}` does not split the class attribute")
+    sep = c.args[0] if c.args else next((k.value for k in c.keywords if k.arg == "sep"), None)
+    if c.func.attr == "split" and (sep is None or (isinstance(sep, ast.Constant) and sep.value is None)):
+        rep.ok("C16.R7", key, site, "str.split() without a separator")
+    elif c.func.attr in ("split", "rsplit") and isinstance(sep, ast.Constant) and isinstance(sep.value, str):
+        rep.violation("C16.R7", key, site, f"`{short(c, 40)}` splits the class attribute at {sep.value!r} only: class names separated by a tab or a line break (`class=\"a\\tb\"`, a class list wrapped over two lines) are glued together, so find(classes=['a']) misses the element")
+    else:
+        raise Unsupported(f"{fi.fq}: `{short(c, 40)}`")
+
+
 @rule("C16.R7")
 def r7_document_order(corpus: Corpus, rep: Report, tier: str):
     rep.rule("C16.R7", "walk() is pre-order in list order without duplicates; find() filters it in order: name test, classes subset, every requested attribute")
@@ -3597,61 +3899,12 @@ def r7_document_order(corpus: Corpus, rep: Report, tier: str):
         rep.violation("C16.R7", key, it.site(), f"`{short(src[0], 40)}`: children are not enumerated in list order, so render() and walk() leave document order")
     else:
         raise Unsupported(f"{it.fq}: source {short(src[0], 40)}")
-    # walk
+    # walk: run on small abstract trees and compared with the pre-order of the descendants
     walk = P.element.methods.get("walk")
     if walk is None:
         raise AnchorMissing("Element.walk not found")
     rep.saw_function(walk.fq)
-    cfg = get_cfg(walk)
-    loops = [n for n in walk_local(walk.node) if isinstance(n, ast.For)]
-    if len(loops) != 1 or not isinstance(loops[0].target, ast.Name):
-        raise Unsupported(f"{walk.fq}: expected one loop over the children")
-    loop = loops[0]
-    var = loop.target.id
-    key = f"{walk.fq}|children in list order"
-    if _children_source(loop.iter):
-        rep.ok("C16.R7", key, walk.module.site(loop))
-    elif isinstance(loop.iter, ast.Call) and (dotted(loop.iter.func) or "") in ORDER_BREAKERS:
-        rep.violation("C16.R7", key, walk.module.site(loop), f"walk() iterates `{short(loop.iter, 40)}`: elements are not visited in document order")
-    else:
-        raise Unsupported(f"{walk.fq}: loop source {short(loop.iter, 40)}")
-    seq = []
-    for st in loop.body:
-        v = st.value if isinstance(st, ast.Expr) else None
-        if isinstance(v, ast.Yield) and _is_name(v.value, var):
-            seq.append("child")
-        elif isinstance(v, ast.YieldFrom) and isinstance(v.value, ast.Call) and isinstance(v.value.func, ast.Attribute) and v.value.func.attr == "walk" and _is_name(v.value.func.value, var):
-            inc = _truthy_kw(v.value, "include_self", 0)
-            if inc is None:
-                raise Unsupported(f"{walk.fq}: include_self argument {short(v.value, 40)}")
-            seq.append("descend+self" if inc else "descend")
-        else:
-            raise Unsupported(f"{walk.fq}: loop statement `{short(st, 50)}`")
-    key = f"{walk.fq}|pre-order, each element once"
-    site = walk.module.site(loop)
-    if seq in (["child", "descend"], ["descend+self"]):
-        rep.ok("C16.R7", key, site, " then ".join(seq))
-    elif seq == ["descend", "child"]:
-        rep.violation("C16.R7", key, site, "walk() yields a child after its descendants (post-order): find() no longer returns matches in document order")
-    elif "child" in seq and "descend+self" in seq or seq.count("child") > 1:
-        rep.violation("C16.R7", key, site, "walk() yields every child twice (once directly, once through include_self=True): elements are not reachable exactly once")
-    elif "descend" not in seq and "descend+self" not in seq:
-        rep.violation("C16.R7", key, site, "walk() does not descend into the children: deeper elements are never reached")
-    elif seq == ["descend"]:
-        rep.violation("C16.R7", key, site, "walk() never yields the children themselves")
-    else:
-        raise Unsupported(f"{walk.fq}: yield sequence {seq}")
-    for n in walk_local(walk.node):
-        if isinstance(n, (ast.Yield, ast.YieldFrom)) and cfg.stmt_of(n) not in loop.body:
-            st = cfg.stmt_of(n)
-            key = f"{walk.fq}|self first when requested"
-            ok_self = isinstance(n, ast.Yield) and _is_name(n.value, "self") and any(_is_name(t, "include_self") and pol for t, pol in cfg.guards(st))
-            if not ok_self:
-                raise Unsupported(f"{walk.fq}: `{short(st, 40)}` outside the loop")
-            if loop in cfg.reachable_from(st) and st not in cfg.reachable_from(("T", loop)):
-                rep.ok("C16.R7", key, walk.module.site(st))
-            else:
-                rep.violation("C16.R7", key, walk.module.site(st), "with include_self the element itself is yielded after (or among) its descendants")
+    _judge_walk(P, rep, walk)
     # find
     find = P.element.methods.get("find")
     if find is None:
@@ -3673,6 +3926,7 @@ def r7_document_order(corpus: Corpus, rep: Report, tier: str):
     else:
         rep.ok("C16.R7", key, find.module.site(main), f"`{short(main.iter, 40)}` derives from self.walk() / self in order")
     _judge_find_filters(P, rep, find, main, cand)
+    _judge_class_tokens(P, rep)
     rep.expect_min("C16.R7", 7, "__iter__, walk (3), find (4) on the pinned tree")
 
 
@@ -4673,6 +4927,15 @@ def mutants(corpus: Corpus):
         add("c16-deepcopy-from-shallow-copy", "C16.R4", ca, f"{cvn} = copy.copy(self)\n        {cvn}._parent = None\n        {cvn}._children = []", "a shallow copy replaces", tail="\n\nimport copy\n")
     else:
         out.append(("c16-deepcopy-from-shallow-copy", "deepcopy no longer constructs the copy with self.__class__(...)"))
+    # class tokens: split at the space character only (near-synonym of str.split())
+    acl = P.attribute.methods.get("classes")
+    spc = find_node(acl, lambda n: isinstance(n, ast.Call) and isinstance(n.func, ast.Attribute) and n.func.attr == "split" and not n.args) if acl else None
+    if spc is not None:
+        recv_ = unparse(spc.func.value)
+        add("c16-class-tokens-split-at-space-only", "C16.R7", spc, f'[name_ for name_ in {recv_}.split(" ") if name_]', "class names are separated")
+        add("c16-class-tokens-split-at-space-plain", "C16.R7", spc, f'{recv_}.split(" ")', "class names are separated")
+    else:
+        out.append(("c16-class-tokens-split-at-space-only", "Attribute.classes no longer calls split() without arguments"))
     # ---- R9 (class: a traversal that calls itself per nesting level)
     fy = find_node(E["find"], lambda n: isinstance(n, ast.Expr) and isinstance(n.value, ast.Yield))
     fit = find_node(E["find"], lambda n: isinstance(n, ast.Assign) and unparse(n.targets[0]) == "iterator" and "walk" in unparse(n.value))
